@@ -50,6 +50,17 @@ impl TargetWatcher {
                                     path.display(),
                                 );
                             }
+                            // Depending on the backend, a missing path is reported as a plain IO error.
+                            Err(notify::Error {
+                                kind: ErrorKind::Io(ref io_error),
+                                ..
+                            }) if io_error.kind() == std::io::ErrorKind::NotFound => {
+                                log::warn!(
+                                    "{} - Skipping watch on non-existing path: {}",
+                                    target_id,
+                                    path.display(),
+                                );
+                            }
                             Err(e) => {
                                 return Err(Error::new(e).context(format!(
                                     "Error watching path {} for target {}",
